@@ -366,6 +366,10 @@ func (c Collection) flatten() []*provider {
 }
 
 func (fm *provider) modify(f func(*provider)) thing {
+	if fm == nil {
+		// annotating nil gives nil, which Sequence ignores like any other nil
+		return fm
+	}
 	nfm := fm.copy()
 	f(nfm)
 	return nfm
